@@ -787,3 +787,8 @@ CASES["C02"] += [
     ("pointer moved by the layout's origin only", "mutant", LAYRESF, "        for operand, offset in zip(op.operands, offsets):\n            pointer: Operation", "        for operand in op.operands:\n            offset = operand.type.get_affine_map_in_bytes().eval([0] * operand.type.get_num_dims(), ())[0]\n            pointer: Operation", ["C02.offset"]),
     ("stride canonicalisation folds on the outer stride", "mutant", "snaxc/dialects/snax_stream.py", "@patch:seeded/C02-c/patch.diff", "", ["C02.stride-canon"]),
 ]
+
+CASES["C08"] += [
+    ("reintroduce F-36 (xDMA masks follow the last operand's zero pattern)", "mutant", "snaxc/accelerators/snax_xdma.py", "@revert:b5e47e4~1", "", ["C08.per-streamer-fresh"]),
+]
+
